@@ -171,7 +171,7 @@ void chk_run_case(uint64_t seed, long c, bool is_sweep)
                         long b = 4000 + 400L * QCAP, i = 0;
                         for (; i < b && (rcount != 0 || inprog) && !case_failed(); i++) svc();
                         if (case_failed()) return;
-                        CNT(hold_active ? "bounded_drains_while_a_command_is_held" : "bounded_drains");
+                        if (hold_active) CNT("bounded_drains_while_a_command_is_held"); else CNT("bounded_drains");
                         if (rcount != 0 || inprog) { viol("C13", "events-left", "%d accepted event(s) waiting / %d in progress are not processed within %ld service calls although the output accepts every byte and nothing new is triggered (command held: %s)", rcount, inprog, b, hold_active ? "yes" : "no"); return; }
                 }
                 else if (r < p_trig + 19 && hold_active) { if (cat_hold_exit(W.at, CAT_STATUS_OK) == CAT_STATUS_OK) hold_active = false; }
